@@ -1163,7 +1163,8 @@ class AttrParser(BaseParser):
         def to_complex(
             self, parser: AttrParser, type: ComplexType
         ) -> tuple[float, float] | tuple[int, int]:
-            assert isinstance(self.value, tuple)
+            if not isinstance(self.value, tuple):
+                parser.raise_error("Expected complex value", at_position=self.span)
 
             if isinstance(type.element_type, AnyFloat):
                 return (float(self.value[0]), float(self.value[1]))
@@ -1172,7 +1173,10 @@ class AttrParser(BaseParser):
                 case IntegerType():
                     return (int(self.value[0]), int(self.value[1]))
 
-            raise NotImplementedError()
+            parser.raise_error(
+                f"Unsupported complex element type {type.element_type}",
+                at_position=self.span,
+            )
 
         def to_type(
             self,
